@@ -656,8 +656,11 @@ lzma_index_append(lzma_index *i, const lzma_allocator *allocator,
 	const uint32_t index_list_size_add = lzma_vli_size(unpadded_size)
 			+ lzma_vli_size(uncompressed_size);
 
-	// Check that uncompressed size will not overflow.
-	if (uncompressed_base + uncompressed_size > LZMA_VLI_MAX)
+	// Check that uncompressed size will not overflow. It's the total
+	// of all Streams that matters: lzma_index_cat() relies on
+	// i->uncompressed_size being a valid lzma_vli, and the Stream being
+	// appended to may have other Streams before it.
+	if (i->uncompressed_size + uncompressed_size > LZMA_VLI_MAX)
 		return LZMA_DATA_ERROR;
 
 	// Check that the new unpadded sum will not overflow. This is
